@@ -1042,3 +1042,10 @@ def prop_sle_history(ch, ctx):
 PROPS.update({
     'sle_history': (prop_sle_history, 2400, 30000, {'shrink': False}),
 })
+
+
+# Execution order: the small global-method strata and the cheap SLE checks first, so that the wall-clock guard on a
+# busy machine can only truncate the two large LLE searches (reported as skipped_time in the evidence) and never
+# leaves a required global-method cell empty.
+PROPS = {k: PROPS[k] for k in ('lle_global', 'lle_global_history', 'sle_fresh', 'sle_history', 'lle_fresh',
+                               'lle_history', 'lle_call')}
